@@ -72,13 +72,14 @@ class World:
 
 
 class AgentLeg:
-    def __init__(self, composite, incl, win_i, prio, keys):
+    def __init__(self, composite, incl, win_i, prio, keys, late=False):
+        self.late = late        # the collector is not registered at first; a system registers it during a timestep
         self.composite, self.incl, self.win_i, self.prio = composite, incl, win_i, prio
         self.win = WINDOWS[win_i]
         self.keys = list(keys)
-        self.config = {'composite': composite, 'incl': incl, 'win': win_i, 'prio': prio, 'keys': self.keys}
+        self.config = {'composite': composite, 'incl': incl, 'win': win_i, 'prio': prio, 'keys': self.keys, 'late': late}
         self.cn = Canon()
-        self._ops = [['step'], ['swap']]
+        self._ops = [['step'], ['swap']] + ([['step_install']] if late else [])
         for k in self.keys:
             self._ops += [['join', k], ['leave', k], ['step_with', 'join', k], ['step_with', 'leave', k]]
 
@@ -92,9 +93,14 @@ class AgentLeg:
             w.agents[k] = a
         w.pending = []
         w.swaps = 0
+        w.gone = set()
+        w.install_now = False
 
         class Mut(Core.System):
             def execute(self_):
+                if w.install_now:
+                    m.systems.add_system(w.col)      # a (burn-in) system installs the collector during a timestep
+                    w.install_now = False
                 for kind, k in w.pending:
                     if kind == 'join':
                         m.environment.add_agent(w.agents[k])
@@ -120,7 +126,9 @@ class AgentLeg:
         w.col = AgentCollector(m, lambda a: a[V].value, comp, self.incl, **kw)
         # the collector is registered BEFORE the priority-0 system: with its default priority it must still run
         # after it and observe the state that timestep's systems left behind
-        m.systems.add_system(w.col)
+        w.installed = not self.late
+        if not self.late:
+            m.systems.add_system(w.col)
         w.mut = Mut('mut', m, priority=0)
         m.systems.add_system(w.mut)
         w.res = []
@@ -145,10 +153,14 @@ class AgentLeg:
                 continue
             if op[0] == 'step_with' and ((op[1] == 'join') == (op[2] in w.res)):
                 continue
-            if op[0] in ('step', 'step_with') and w.t >= 5:
+            if op[0] in ('step', 'step_with', 'step_install') and w.t >= 5:
                 continue
-            if op[0] == 'swap' and (w.swaps >= 1 or w.res):      # only an empty environment is replaced
+            if op[0] == 'step_install' and w.installed:
                 continue
+            if op[0] == 'swap' and w.swaps >= 3:
+                continue
+            if op[0] in ('join', 'leave', 'step_with') and (op[-1] in w.gone):
+                continue         # agents left behind in a replaced environment are not used again
             out.append(op)
         return out
 
@@ -172,6 +184,7 @@ class AgentLeg:
         if op[0] == 'swap':
             # the model gets a fresh, empty environment (after the collector was built): collections follow the model
             w.model.environment = Core.Environment(w.model)
+            w.gone |= set(w.res)       # whoever was resident stays behind in the abandoned environment
             w.res = []
             w.swaps += 1
         elif op[0] == 'join':
@@ -182,6 +195,9 @@ class AgentLeg:
             w.res.remove(op[1])
         else:
             before = list(w.res)
+            installing = op[0] == 'step_install'
+            if installing:
+                w.install_now = True
             if op[0] == 'step_with':
                 w.pending.append((op[1], op[2]))
                 if op[1] == 'join':
@@ -189,15 +205,27 @@ class AgentLeg:
                 else:
                     w.res.remove(op[2])
             seen_by_collector = before if self.prio == 'plus5' else list(w.res)
-            if scheduled(w.t, self.win):
+            # a collector registered during this timestep may first run now or in the next one (left open, as for any
+            # system registered mid-timestep); afterwards it runs like any other
+            runs_now = w.installed
+            if installing:
+                w.installed = True
+                w.open_step = True
+            if runs_now and scheduled(w.t, self.win):
                 rec = self._record(w, seen_by_collector)
                 if rec:
                     w.ref.append(rec)
             w.model.execute()
+            if getattr(w, 'open_step', False):
+                w.open_step = False
+                if len(w.col.records) == len(w.ref) + 1 and self.prio != 'plus5' and scheduled(w.t, self.win):
+                    rec = self._record(w, list(w.res))
+                    if rec and w.col.records[-1] == rec:
+                        w.ref.append(rec)        # it already ran in the timestep it was registered in: fine
             w.t += 1
             if w.pending:
                 raise Violation('the priority-0 system did not run in this timestep', observed=w.pending)
-        if op[0] in ('step', 'step_with'):
+        if op[0] in ('step', 'step_with', 'step_install'):
             w.m2.execute()
             w.ref2.append({'z': 99})
         if w.col2.records != w.ref2:
@@ -217,7 +245,7 @@ class AgentLeg:
         return self.cn(w.model, [w.agents[k] for k in self.keys], w.col, w.mut)
 
     def refstate(self, w):
-        return (tuple(w.res), w.t, repr(w.ref), w.swaps)
+        return (tuple(w.res), w.t, repr(w.ref), w.swaps, tuple(sorted(w.gone)), w.installed)
 
     def outcome(self, w):
         return repr(w.ref[-2:])
@@ -225,7 +253,7 @@ class AgentLeg:
 
 def agent_fn(ctx, item):
     cfg, keys, depth = item
-    h = AgentLeg(cfg[0], cfg[1], cfg[2], cfg[3], keys)
+    h = AgentLeg(cfg[0], cfg[1], cfg[2], cfg[3], keys, late=len(cfg) > 4 and cfg[4])
     r = hbfs.explore(ctx, h, 'agent', max_depth=depth, procs=1)
     ctx.leg('agent', **r)
 
@@ -253,8 +281,10 @@ def file_case(case):
         kw = {'start': start, 'frequency': freq}
         if end != INF:
             kw['end'] = end
+        if case.get('filemode'):
+            kw['filemode'] = case['filemode']       # other spellings of append mode
         col = Col('fc', model, path, write_count=wc, **kw)
-        if col.filemode != 'a' or col.priority != -1:
+        if (col.filemode != 'a' and not case.get('filemode')) or col.priority != -1:
             raise Violation('FileCollector defaults changed', expected=['a', -1], observed=[col.filemode, col.priority])
         model.systems.add_system(col)
         collected, flushed, held, ncoll = [], [], [], 0
@@ -303,6 +333,10 @@ def run(ctx):
     T, wcs = (5, range(4)) if quick else (7, range(6))
     cases = [{'leg': 'file', 'counts': list(c), 'write_count': wc, 'win': wi}
              for c in itertools.product((0, 1, 2), repeat=T) for wc in wcs for wi in range(len(WINDOWS))]
+    for fm in ('at', 'a+'):
+        for counts in ([1, 2, 0, 1, 2], [2, 2, 2, 2, 2]):
+            for wc in (0, 1, 2):
+                cases.append({'leg': 'file', 'counts': counts, 'write_count': wc, 'win': 0, 'filemode': fm})
     # large backlogs: many records per collection, flush sizes at and around powers of two
     for per in (8, 16, 64, 63, 65):
         for wc in (0, 1, 3, 7):
@@ -315,6 +349,8 @@ def run(ctx):
         return
     if quick:
         items = [(cfg, ['a', 'b'], 4) for cfg in QUICK_CONFIGS]
+        items += [(('absent', False, 0, 'default', True), ['a', 'b'], 4), (('dict', True, 1, 'default', True), ['a', 'b'], 4),
+                  (('absent', True, 1, 'default'), ['a', 'b', 'c'], 5)]
     else:
         items = [((c, i, wi, p), ['a', 'b', 'c'], 4) for c in COMPOSITES for i in (False, True)
                  for wi in range(len(WINDOWS)) for p in ('default', 'plus5')]
@@ -328,4 +364,4 @@ def replay(case):
         hbfs._guard(file_case, case)
     else:
         c = case['config']
-        hbfs.replay_case(AgentLeg(c['composite'], c['incl'], c['win'], c['prio'], c['keys']), case)
+        hbfs.replay_case(AgentLeg(c['composite'], c['incl'], c['win'], c['prio'], c['keys'], c.get('late', False)), case)
